@@ -587,6 +587,158 @@ def c07_null(run):
 
 
 @guarded
+def callee_frames(run):
+    """Frame conditions that the update-cone harness assumes of the callees it replaces by contract stubs, proved on the
+    real callees: polar_decompose and core.derivatives leave their array arguments untouched (eval_rhs hands
+    polar_decompose the very array it later returns as dF/dt, and the solver the arrays it goes on using)."""
+    from contracts import corelib as CL
+
+    T = real_module("pydrex.tensors")
+    fn = "pydrex.tensors.polar_decompose"
+    for left in (True, False):
+        M0 = symarr("pdM", (3, 3))
+
+        def body(left=left):
+            M = S.SymArray(np.array(M0, dtype=object).copy())
+
+            class LinalgStub:
+                @staticmethod
+                def svd(m):
+                    return symarr("pdU", (3, 3)), symarr("pdS", (3,)), symarr("pdV", (3, 3))
+
+                @staticmethod
+                def inv(m):
+                    return symarr("pdInv", (3, 3))
+
+            g = E.rebind_module(T, np_shim=S.NPShim(extra={"linalg": LinalgStub}))
+            g["polar_decompose"](M, left)
+            return M
+
+        ex = E.explore(body, hyps=[], max_paths=40)
+        run.paths += len(ex.paths)
+        if not ex.paths:
+            run.undecided(f"polar_decompose(left={left})/frame", fn, "no path: " + "; ".join(ex.unsupported[:2]))
+            continue
+        if not ex.complete or ex.unsupported:
+            run.undecided(f"polar_decompose(left={left})/frame: remaining paths", fn, "exploration incomplete: " + "; ".join(ex.unsupported[:2]))
+        for pi, p in enumerate(ex.paths[:12]):
+            if p.exc is not None:
+                run.undecided(f"polar_decompose(left={left})/frame/path{pi}", fn, f"{type(p.exc).__name__}: {p.exc}")
+                continue
+            after = np.asarray(p.value, dtype=object)
+            goal = z3.And(*[S.zz(after[i, j]) == S.zz(M0[i, j]) for i in range(3) for j in range(3)])
+
+            def replay(model, left=left):
+                Mv = E.model_array(model, M0)
+                from pv import native
+
+                r = native.call("contracts.updfacets", "nat_polar_frame", dict(M=np.asarray(Mv, dtype=float).tolist(), left=left))
+                return (not r["ok"]), dict(checker="contracts.updfacets:nat_polar_frame", inputs=dict(M=np.asarray(Mv, dtype=float).tolist(), left=left), observed=r["observed"])
+
+            run.prove(f"polar_decompose(left={left})/path{pi}: the argument array is not modified", fn, list(ex.ctx.hyps) + list(p.pc), goal, replay=replay, kind="frame")
+    # derivatives: lifted orientations / fractions are never written; the 3x3 arguments keep their entries
+    core = CL.load()
+    for regime in (0, 4, 6, 7):
+        c = E.Ctx([])
+        E.Ctx.cur = c
+        c.reset_path([])
+        dr = CL.DerivRun(core, regime)
+        try:
+            dr.run()
+            same = all(z3.eq(S.zz(a), S.zz(b)) for A_, B_ in zip((dr.L, dr.D, dr.W), dr.snap) for a, b in zip(np.asarray(A_, dtype=object).flat, B_.flat))
+            run.exact(f"derivatives[regime={regime}]/frame: orientations, fractions and the 3x3 arguments are not written", "pydrex.core.derivatives",
+                      dr.O.writes == 0 and dr.f.writes == 0 and same,
+                      f"{dr.O.writes} writes to orientations, {dr.f.writes} to fractions; strain rate / velocity gradient / spin entries identical: {same}")
+        except ValueError as e:
+            run.undecided(f"derivatives[regime={regime}]/frame", "pydrex.core.derivatives", f"raised {e}")
+        finally:
+            E.Ctx.cur = None
+            LA.Sigma.cur = None
+            LA.LoopRule.cur = None
+
+
+def nat_polar_frame(M, left):
+    from pydrex import tensors as T
+
+    M = np.array(M, dtype=float)
+    out = []
+    for scale in (1.0, 1e-17, 1e-300):  # the model's matrix, and the same matrix at tiny magnitudes
+        A = M * scale
+        B = A.copy()
+        try:
+            T.polar_decompose(A, left)
+        except Exception as e:  # singular input of the right decomposition: not the frame's business
+            continue
+        if not np.array_equal(A, B):
+            out.append(f"scale {scale:g}: argument changed by up to {np.abs(A - B).max():.3g}")
+    return dict(ok=not out, observed="; ".join(out) or "argument bit-identical after the call")
+
+
+@guarded
+def regime_glue(run):
+    """The regime the solver sees: the callback's value at the (time, position) of every right-hand-side evaluation when a
+    `get_regime` callback is given -- for every member, ordinal 0 included -- and the mineral's own regime otherwise; after the
+    update the mineral's regime attribute is the last callback value."""
+    core = real_module("pydrex.core")
+    members = [int(r) for r in core.DeformationRegime]
+    for r0 in (4, 0):
+        for rcb in [None] + members:
+            if rcb == r0:
+                continue
+            tag = f"regime-glue[mineral={r0},callback={rcb}]"
+            h, ex = explore(run, tag, assemblage=(0,), regime=r0, get_regime=rcb, steps_choices=(1,), lifted=False, n_concrete=2)
+            if ex is None:
+                continue
+            want = r0 if rcb is None else rcb
+            ok, why = True, ""
+            for pi, p in enumerate(ex.paths):
+                tr = p.value
+                if tr.exc is not None:
+                    ok, why = False, f"path{pi} raised {type(tr.exc).__name__}: {tr.exc}"
+                    break
+                if not tr.deriv:
+                    ok, why = False, f"path{pi}: the solver was never called"
+                    break
+                got = [int(k.get("regime", -99)) for k in tr.deriv]
+                if any(g_ != want for g_ in got):
+                    ok, why = False, f"path{pi}: solver received regimes {got[:4]}, expected {want}"
+                    break
+                if rcb is not None and (len(tr.regime_calls) != len(tr.deriv) or int(tr.mineral.regime) != rcb):
+                    ok, why = False, f"path{pi}: {len(tr.regime_calls)} callback evaluations for {len(tr.deriv)} solver calls; mineral.regime afterwards {tr.mineral.regime!r}"
+                    break
+            info = None if ok or rcb is None else dict(checker="contracts.updfacets:nat_regime_cb", inputs=dict(r0=r0, rcb=rcb))
+            run.exact(f"{tag}: every solver call receives regime {want}", FN_RHS, ok, why or f"{sum(len(p.value.deriv) for p in ex.paths)} solver calls on {len(ex.paths)} paths", info=info)
+
+
+def nat_regime_cb(r0, rcb):
+    """Real code, real solver: an update with a callback returning regime `rcb` equals the update of a mineral constructed with `rcb`."""
+    import logging
+
+    logging.disable(logging.CRITICAL)
+    import pydrex
+    from pydrex import core
+
+    outs = []
+    for mode in ("callback", "constructed"):
+        m = pydrex.Mineral(phase=core.MineralPhase.olivine, fabric=core.MineralFabric.olivine_A,
+                           regime=core.DeformationRegime(r0 if mode == "callback" else rcb), n_grains=30, seed=5)
+        params = pydrex.DefaultParams().as_dict()
+        params["number_of_grains"] = 30
+        L = np.array([[0.0, 2.0, 0.0], [0.0, 0.0, 0.0], [0.0, 0.0, 0.0]])
+        try:
+            m.update_orientations(params, np.eye(3), lambda t, x: L, (0.0, 0.3, lambda t: np.zeros(3)),
+                                  **({"get_regime": (lambda t, x: core.DeformationRegime(rcb))} if mode == "callback" else {}))
+            outs.append((m.orientations[-1], m.fractions[-1]))
+        except Exception as e:
+            outs.append(type(e).__name__)
+    if isinstance(outs[0], str) or isinstance(outs[1], str):
+        ok = outs[0] == outs[1] if isinstance(outs[0], str) and isinstance(outs[1], str) else False
+        return dict(ok=ok, observed=f"callback run: {outs[0] if isinstance(outs[0], str) else 'ok'}, constructed run: {outs[1] if isinstance(outs[1], str) else 'ok'}")
+    d = float(max(np.abs(outs[0][0] - outs[1][0]).max(), np.abs(outs[0][1] - outs[1][1]).max()))
+    return dict(ok=d <= 1e-12, observed=f"texture after an update with get_regime -> {rcb} differs from a mineral constructed with regime {rcb} by {d:.3g}")
+
+
+@guarded
 def rhs_safety(run):
     """The right-hand side never divides by zero / leaves its domain, for generic, rigid-rotation and zero velocity gradients
     (finite snapshots need a finite right-hand side)."""
